@@ -68,6 +68,9 @@ func (e *Engine) execCall0(fc *fnCtx, b *ssa.BasicBlock, st *State, c *ssa.CallC
 		args = append(args, e.dataVal(e.val(fc, a)))
 	}
 	if c.IsInvoke() {
+		if fc.contract != nil && len(fc.contract.Asserts) > 0 && len(e.inlineStack) == 0 && instr != nil {
+			e.checkCallAsserts(fc, st, c, instr, pos)
+		}
 		recv := e.val(fc, c.Value)
 		txt := e.srcText(pos, "call")
 		e.addObl(fc.fn, "nilderef", txt, pos, st.Reach, "(not (= "+recv.T+" 0))")
@@ -586,6 +589,39 @@ func (e *Engine) applyContract(fc *fnCtx, st *State, c *Contract, args []Val, po
 
 // havocDesignator applies one `modifies` designator to st.
 func (e *Engine) havocDesignator(env *SpecEnv, st *State, d SExpr) {
+	// p.f where p may be the address of a struct field of the function under verification (an interior pointer): the
+	// location lives inside the owner's struct-valued field, which is what has to change
+	if x, ok := d.(SSel); ok {
+		base := e.trSpec(env, x.X)
+		if base.GoT != nil {
+			if pt, ok := base.GoT.Underlying().(*types.Pointer); ok {
+				bt := pt.Elem()
+				if u, ok := isStruct(bt); ok {
+					if cands := e.interiorCands(bt); len(cands) > 0 {
+						for i := 0; i < u.NumFields(); i++ {
+							if u.Field(i).Name() != x.Sel {
+								continue
+							}
+							hn, hs := e.fieldHeapName(bt, u, i)
+							fresh := e.sc.declareConst("mod_"+hn, e.sortOf(u.Field(i).Type()))
+							isPlain := "true"
+							for _, c := range cands {
+								cond := "(= (pkind " + base.T + ") " + fmt.Sprint(c.id) + ")"
+								h := e.heapIn(st, c.heap, c.sort)
+								own := "(" + c.owner + " " + base.T + ")"
+								path := append(append([]pathStep{}, c.path...), pathStep{Field: i, T: bt})
+								e.setHeapIn(st, c.heap, c.sort, ite(cond, store(h, own, e.updatePath(sel(h, own), c.baseT, path, fresh)), h))
+								isPlain = and(isPlain, not(cond))
+							}
+							h := e.heapIn(st, hn, hs)
+							e.setHeapIn(st, hn, hs, ite(isPlain, store(h, base.T, fresh), h))
+							return
+						}
+					}
+				}
+			}
+		}
+	}
 	for _, loc := range e.designatorLocs(env, d) {
 		if loc.ref == "" {
 			e.setHeapIn(st, loc.heap, loc.sort, e.sc.declareConst("mod_"+loc.heap, loc.sort))
